@@ -201,6 +201,20 @@ fn do_resolve<Fd: AsFd, P: AsRef<Path>>(
     );
     let mut current = Rc::clone(&root);
 
+    // Like openat2(2) (and every other path lookup), refuse the empty path.
+    if path.as_ref().as_os_str().is_empty() {
+        return Ok(PartialLookup::Partial {
+            handle: current,
+            remaining: PathBuf::new(),
+            last_error: ErrorImpl::OsError {
+                operation: "emulated path resolution".into(),
+                source: IOError::from_raw_os_error(libc::ENOENT),
+            }
+            .wrap("cannot resolve an empty path")
+            .into(),
+        });
+    }
+
     // Get initial set of components from the passed path. We remove components
     // as we do the path walk, and update them with the contents of any symlinks
     // we encounter. Path walking terminates when there are no components left.
